@@ -3,6 +3,7 @@ package rules
 import (
 	"fmt"
 	"go/token"
+	"go/types"
 	"strings"
 
 	"golang.org/x/tools/go/ssa"
@@ -162,6 +163,58 @@ func runMuxTab(c *core.Ctx) {
 			}
 		}
 	})
+	// the handler picked into a variable and served once (`switch { case Upgrade != "": h = mux.Relay
+	// …}; h.ServeHTTP(w, r)`): each value the variable can hold at the call, with the header tests
+	// that lead to it holding that value
+	if len(relayG)+len(nipG) == 0 {
+		an.Instrs(mux, func(in ssa.Instruction) {
+			call, ok := in.(*ssa.Call)
+			if !ok || an.CalleeName(&call.Call) != "invoke:net/http.Handler.ServeHTTP" {
+				return
+			}
+			var flatten func(v ssa.Value, acc []string, at *ssa.BasicBlock, depth int)
+			flatten = func(v ssa.Value, acc []string, at *ssa.BasicBlock, depth int) {
+				if depth > 6 {
+					return
+				}
+				if ph, isPhi := v.(*ssa.Phi); isPhi {
+					for i, e := range ph.Edges {
+						pred := ph.Block().Preds[i]
+						gs := append(append([]string(nil), acc...), guardSummary(mux, pred)...)
+						if iff, isIf := an.LastInstr(pred).(*ssa.If); isIf && len(pred.Succs) == 2 && pred.Succs[0] != pred.Succs[1] {
+							if n, op, val, okh := headerCond(an.NormCond(an.Cond{V: iff.Cond, True: pred.Succs[0] == ph.Block(), At: pred})); okh {
+								gs = append(gs, fmt.Sprintf("%s%s%q", n, op, val))
+							}
+						}
+						flatten(e, gs, pred, depth+1)
+					}
+					return
+				}
+				gs := uniq(acc)
+				p := an.PathOf(v)
+				switch {
+				case p == "recv.Relay" || strings.HasSuffix(p, "(recv.Relay)"):
+					relayG, relayPos = append(relayG, gs), call.Pos()
+				case strings.Contains(p, "recv.NIP11"):
+					nipG, nipPos = append(nipG, gs), call.Pos()
+				case p == "recv.Default":
+					defG, defPos = append(defG, gs), call.Pos()
+				default:
+					// the greeting: a plain function converted to a handler that writes a constant text
+					if f := funcValue(v); f != nil {
+						for _, ci := range calls(f) {
+							if an.CalleeName(ci.Common()) == "io.WriteString" {
+								if s, isS := an.ConstStr(ci.Common().Args[1]); isS && s != "{}" {
+									greetG = append(greetG, gs)
+								}
+							}
+						}
+					}
+				}
+			}
+			flatten(call.Call.Value, nil, call.Block(), 0)
+		})
+	}
 	c.CountSites(len(relayG) + len(nipG) + len(defG) + len(greetG))
 	one := func(gs [][]string, want ...string) bool {
 		if len(gs) != 1 {
@@ -341,6 +394,19 @@ func runHdrBeforeWrite(c *core.Ctx) {
 	})
 	if n == 0 {
 		c.Unknown(nil, fname(c, nip), "document/write", P.Pos(nip.Pos()), "no status-200 body write found on the NIP-11 path")
+	}
+	// the mux writes no document of its own: the empty-document answer is NIP11.ServeHTTP of an empty
+	// document (`cmp.Or(mux.NIP11, &NIP11{})`), whose write was checked above
+	if n == 1 {
+		delegates := false
+		an.Instrs(mux, func(in ssa.Instruction) {
+			if a, ok := in.(*ssa.Alloc); ok && a.Heap && typeNameOf(a.Type()) == "NIP11" {
+				delegates = true
+			}
+		})
+		if delegates {
+			c.Trivial(nil, fname(c, mux), "branch:nostr+json/write", P.Pos(mux.Pos()), "without a configured document the mux serves an empty NIP11 value through NIP11.ServeHTTP: the same write, the same headers")
+		}
 	}
 }
 
@@ -672,7 +738,42 @@ func kindBytes(v ssa.Value, depth int) ([]string, bool) {
 
 // sliceLitElems: elements of a slice literal []T{a, b, …} (new [n]T; stores; slice).
 func sliceLitElems(v ssa.Value) ([]ssa.Value, bool) {
-	return an.VariadicElems(an.Unwrap(v))
+	v = an.Unwrap(v)
+	if mi, ok := v.(*ssa.MakeInterface); ok {
+		v = mi.X
+	}
+	// an array literal handed over by value (`[2]int{k.From, k.To}`): the same JSON as the slice
+	if ld, ok := v.(*ssa.UnOp); ok && ld.Op == token.MUL {
+		if a, isA := ld.X.(*ssa.Alloc); isA {
+			if arr, isArr := a.Type().(*types.Pointer).Elem().Underlying().(*types.Array); isArr && a.Referrers() != nil {
+				elems := make([]ssa.Value, arr.Len())
+				n := 0
+				for _, r := range *a.Referrers() {
+					ia, isIA := r.(*ssa.IndexAddr)
+					if !isIA || ia.Referrers() == nil {
+						continue
+					}
+					k, isK := an.ConstInt(ia.Index)
+					if !isK || k < 0 || k >= arr.Len() {
+						return nil, false
+					}
+					for _, r2 := range *ia.Referrers() {
+						if st, isSt := r2.(*ssa.Store); isSt && st.Addr == ssa.Value(ia) {
+							if elems[k] == nil {
+								n++
+							}
+							elems[k] = st.Val
+						}
+					}
+				}
+				if int64(n) == arr.Len() {
+					return elems, true
+				}
+				return nil, false
+			}
+		}
+	}
+	return an.VariadicElems(v)
 }
 
 // kindDecodePaths: on every path of the decoder that succeeds after a type clause, what ends
